@@ -55,8 +55,11 @@ def gen_doc(rng):
             t = c03.gen_table(rng, cid)
             t["caption"] = None if rng.random() < 0.8 else t["caption"]
             parts.append(c03.render_table(t, None))
+            if rng.random() < 0.25:
+                # text on the same line after the table end
+                parts[-1] = parts[-1][:-1] + " after table %d\n" % rng.randint(1, 9)
         elif r < 0.92:
-            parts.append("----\n")
+            parts.append("----\n" if rng.random() < 0.7 else "---- %s\n" % inline(rng))
         else:
             parts.append("; term : definition %d\n" % rng.randint(1, 9) if rng.random() < 0.3 else ": indented %s\n" % rng.choice(INLINE))
     return "".join(parts)
@@ -154,7 +157,8 @@ def run(run):
             run.property_failure("c19:not-a-fixed-point:" + classify(t, o["t2"], o["t3"]),
                                  "second round trip changed the tree: %r -> %r" % (o["w1"][:300], o["w2"][:300]), t)
         if not o["list_ok"]:
-            run.property_failure("c19:list-argument", "node_to_wikitext(list of children) differs from the concatenation", t)
+            run.property_failure("c19:list-argument", "node_to_wikitext(list of the root's children) differs from node_to_wikitext(root)", t)
+    check_table_emit(run, rng, quick)
     from lib import cstr
     strings = ["".join(rng.choice(["[", "]", "[[", "]]", "a", " ", "|", "x"]) for _ in range(rng.randint(1, 8)))
                for _ in range(300 if quick else 2000)]
@@ -179,6 +183,78 @@ def run(run):
             triple = "[[[" in s or "]]]" in s
             run.property_failure("c19:brackets:%s" % ("triple" if triple else "double"),
                                  "text %r came back as %s via %r" % (s, json.dumps(ch)[:200], o["w"]), s)
+
+
+LEX_RE = None
+
+
+def lex_table_text(w):
+    """what the parser's tokenizer makes of serialised table text, in the token alphabet of Model/Tables.v"""
+    import re
+    global LEX_RE
+    if LEX_RE is None:
+        LEX_RE = re.compile(r"(?<=\n)\{\||(?<=\n)\|\+|(?<=\n)\|-|(?<=\n)\|\}|(?<=\n)\||(?<=\n)!|\|\||!!|\||w(\d+)|(\.+)")
+    out = []
+    for m in LEX_RE.finditer(w):
+        g = m.group(0)
+        bol = m.start() > 0 and w[m.start() - 1] == "\n"
+        if m.group(1):
+            out.append(("TText", int(m.group(1)), True))
+        elif m.group(2):
+            out.append(("TText", len(m.group(2)), False))
+        elif g == "{|":
+            out.append(("TStart",))
+        elif g == "|+":
+            out.append(("TCaption",))
+        elif g == "|-":
+            out.append(("TRow",))
+        elif g == "|}":
+            out.append(("TEnd",))
+        elif g == "||":
+            out.append(("TBar2",))
+        elif g == "!!":
+            out.append(("TBang2",))
+        elif g == "|":
+            out.append(("TBar", bol))
+        else:
+            out.append(("TBang", bol))
+    return out
+
+
+def check_table_emit(run, rng, quick):
+    """Model/TableEmit.emit against to_wikitext on the trees of written tables, and the round trip of those trees."""
+    import c03_tables as T
+    docs = []
+    for _ in range(200 if quick else 3000):
+        t = T.gen_table(rng, T.Ids(), 2)
+        docs.append(T.render(T.toks_table(t)))
+    res = lib.run_impl("roundtrip", [{"texts": docs[i:i + 100]} for i in range(0, len(docs), 100)], shards=lib.NCPU)
+    outs = [o for r in res for o in (r.get("outs") or [])]
+    cases, idx = [], []
+    for i, (text, o) in enumerate(zip(docs, outs)):
+        run.count(["table-roundtrip", text], text.count("\n|") >= 3, "table-roundtrip")
+        if "raised" in o:
+            run.property_failure("c19:raised:%s:%s" % (o["raised"], o["where"]), "round trip raised on %r" % text, text)
+            continue
+        a1, a2, a3 = (T.abstract(o[k].get("c", [])) for k in ("t1", "t2", "t3"))
+        if a1 is None or len(a1) != 1 or a1[0][0] != "N":
+            continue                     # reported by C03's table check
+        if a2 != a1:
+            run.property_failure("c19:roundtrip-differs:table-skeleton", "table changed by to_wikitext+parse: %r -> %r" % (text, o["w1"]), text)
+        elif a3 != a2:
+            run.property_failure("c19:not-a-fixed-point:table-skeleton", "second round trip changed the table: %r" % (o["w2"],), text)
+        cases.append("(%s, %s)" % (T.coq_children(a1), T.coq_toks(lex_table_text(o["w1"]))))
+        idx.append(i)
+    bad, errs = lib.coq_eval_failing(
+        "c19t", ["Model.Tables", "Model.TableEmit"], "list tchild * list tok", cases,
+        "fun '(ch, ts) => match ch with [CN n] => shaped 20 n && toks_eqb (emit n) ts | _ => false end",
+        extra_defs=T.DEFS, chunk=150)
+    for e in errs:
+        run.correspondence_break("model evaluation failed (table emitter)", None, error=e)
+    for b in bad:
+        run.correspondence_break("Model.TableEmit.emit disagrees with to_wikitext on a table tree (or the tree is not of the "
+                                 "shape the theorem covers)", docs[idx[b]], w1=outs[idx[b]]["w1"][:400])
+    run.extra["table_trees_validated_against_impl"] = len(cases)
 
 
 def replay(data):
